@@ -157,7 +157,30 @@ func (ex *Exec) closureOfLocal(v ssa.Value) *ssa.Function {
 	}
 	a, ok := u.X.(*ssa.Alloc)
 	if !ok {
-		return nil
+		// a captured variable of the enclosing function that holds a closure (conflict inside findAlias)
+		fv, isFV := u.X.(*ssa.FreeVar)
+		if !isFV || fv.Parent() == nil || fv.Parent().Parent() == nil {
+			return nil
+		}
+		inner, outer := fv.Parent(), fv.Parent().Parent()
+		idx := -1
+		for i, x := range inner.FreeVars {
+			if x == fv {
+				idx = i
+			}
+		}
+		for _, b := range outer.Blocks {
+			for _, in := range b.Instrs {
+				if mc, ok := in.(*ssa.MakeClosure); ok && mc.Fn == ssa.Value(inner) && idx >= 0 && idx < len(mc.Bindings) {
+					if pa, ok := mc.Bindings[idx].(*ssa.Alloc); ok {
+						a = pa
+					}
+				}
+			}
+		}
+		if a == nil {
+			return nil
+		}
 	}
 	var found *ssa.Function
 	for _, r := range *a.Referrers() {
